@@ -39,7 +39,7 @@ _ORIG_PUSH = None
 # ----------------------------------------------------------------------------
 # instance generation
 # ----------------------------------------------------------------------------
-THEMES = ['default'] * 6 + ['highcorr_budget', 'share_lo', 'share_lo', 'doubles', 'tfixed_budget', 'dyadic_share', 'early_shift', 'one_sided']
+THEMES = ['default'] * 6 + ['highcorr_budget', 'share_lo', 'share_lo', 'doubles', 'tfixed_budget', 'dyadic_share', 'early_shift', 'one_sided', 'many_must']
 
 
 def gen_instance(rng, tier, max_admitted=5, force=None, theme=None):
@@ -51,6 +51,7 @@ def gen_instance(rng, tier, max_admitted=5, force=None, theme=None):
     tfixed_budget:   a geo fixed to treatment together with a budget range
     dyadic_share:    geo shares that are exact binary fractions (k/16, k/32, k/64) with a share range whose bounds are
                      such fractions: treatment shares land exactly on the bounds
+    many_must:       more geos that may not be excluded than n_geos_max allows: all of them must still be placed
     one_sided:       every geo is eligible for one group only (or must be excluded): no design exists, both searches must
                      still terminate with an empty list or ValueError
     early_shift:     one geo is three times larger before the analysis window than inside it, with a volume tolerance:
@@ -177,6 +178,14 @@ def gen_instance(rng, tier, max_admitted=5, force=None, theme=None):
     params['n_pretest_max'] = max(n_test + 3, n_dates // 2)
     params.pop('budget_range', None)
     params['n_designs'] = rng.choice([3, 1000])
+  elif theme == 'many_must':
+    elig = {g: list(rng.choice([(1, 1, 0), (1, 1, 0), (0, 1, 0), (1, 0, 0)])) if i < max(3, n_data - 1) else [1, 1, 1]
+            for i, g in enumerate(geos)}
+    if not any(v[1] == 1 for v in elig.values()):
+      elig[geos[0]] = [1, 1, 0]
+    params['n_geos_max'] = rng.choice([2, 2, 3])
+    for k in ('budget_range', 'treatment_share_range', 'treatment_geos_range', 'control_geos_range'):
+      params.pop(k, None)
   elif theme == 'one_sided':
     side = rng.choice([[(0, 1, 0), (0, 1, 1), (0, 0, 1)], [(1, 0, 0), (1, 0, 1), (0, 0, 1)]])
     elig = {g: list(rng.choice(side[:2] if i < 2 else side)) for i, g in enumerate(geos)}
